@@ -9,18 +9,19 @@ from vcheck import Case, gz, gzlist, gzmat, gopt, gbool
 
 PROP = "W3GEN"
 LEVEL = "proof"
-GEN_UNITS = ["GenUtils3", "GenUtils3b", "GenMethods", "GenKernels3", "GenKernels"]
+GEN_UNITS = ["GenUtils3", "GenUtils3b", "GenMethods", "GenMethods2", "GenMethods3", "GenKernels3", "GenKernels"]
 COQ_TARGETS = ["Props/W3C04.vo", "Props/W3C02.vo", "Props/W3C02b.vo", "Props/W3C19.vo", "Props/W3C19b.vo", "Props/W3Methods.vo",
-               "Model/W3Harness.vo", "Model/Harness.vo"]
-THEOREM_FILES = ["Props/W3C04.v", "Props/W3C02.v", "Props/W3C02b.v", "Props/W3C19.v", "Props/W3C19b.v", "Props/W3Methods.v"]
+               "Props/W3Methods2.vo", "Props/W3Methods3.vo", "Model/W3Harness.vo", "Model/Harness.vo"]
+THEOREM_FILES = ["Props/W3C04.v", "Props/W3C02.v", "Props/W3C02b.v", "Props/W3C19.v", "Props/W3C19b.v", "Props/W3Methods.v", "Props/W3Methods2.v", "Props/W3Methods3.v"]
 COQ_IMPORTS = ("From Coq Require Import List ZArith Bool.\n"
-               "From PV Require Import Np.NpZ Np.NpZ2 Np.NpZ3 Np.NpZ3b Np.NpZ3c Np.NpZ3d Gen.GenUtils3 Gen.GenUtils3b Gen.GenMethods Gen.GenMethods2 Gen.GenKernels3 Model.Harness "
+               "From PV Require Import Np.NpZ Np.NpZ2 Np.NpZ3 Np.NpZ3b Np.NpZ3c Np.NpZ3d Np.NpZ3e Gen.GenMethods3 Gen.GenUtils3 Gen.GenUtils3b Gen.GenMethods Gen.GenMethods2 Gen.GenKernels3 Model.Harness "
                "Model.W3Harness.\n")
 RULE = ("exhaustive over small key / slice / shape families + seeded random stream incl. malformed keys (out-of-range, negative, "
         "None, wrong length, zero step); a case is non-trivial unless the operand is empty; distinct = distinct (op, arguments)")
 EXPLANATION = ("Theorems (Props/W3C04.v, W3C02.v, W3C19.v) are stated over Gen/GenUtils3.v, regenerated from pyttb_utils.py on this run; "
                "the correspondence stream runs the same generated functions and every Np/NpZ3.v primitive against pyttb / numpy.")
 SHARD = 300
+CORRESPONDENCE_ONLY = ["method_allsubs (general enumeration statement allsubs_enumerates_stmt: only no-mode / one-mode cases are proved)"]
 
 
 # ------------------------------------------------------------------------------------------------- literals
@@ -759,9 +760,11 @@ def coq_check(c, o):
         return f"(spt_nnz (mkspt {gzmat(a['subs'])} (@nil Z) (@nil Z)) =? {gz(o['ok'])})%Z"
     if c.op == "prim3_redistribute":
         ok = f"kt_redistribute_ok {gkt(a['kt'])} {gz(a['mode'])}"
+        gen = f"ktensor_redistribute {gkt(a['kt'])} {gz(a['mode'])}"       # the generated method (Gen/GenMethods3.v)
         if "exc" in o:
-            return f"negb ({ok})"
-        return f"{ok} && kt_eqb (kt_redistribute {gkt(a['kt'])} {gz(a['mode'])}) {gkt(o['ok'])}"
+            return f"negb ({ok}) && match {gen} with Err => true | Ok _ => false end"
+        return (f"{ok} && kt_eqb (kt_redistribute {gkt(a['kt'])} {gz(a['mode'])}) {gkt(o['ok'])} && "
+                f"match {gen} with Ok k_ => kt_eqb k_ {gkt(o['ok'])} | Err => false end")
     if c.op == "prim3_ix":
         x, r = gix(a["x"]), o["ok"]
         parts = [f"Bool.eqb (ix_is_int {x}) {gbool(r['is_int'])}", f"Bool.eqb (ix_is_slice {x}) {gbool(r['is_slice'])}",
